@@ -38,6 +38,19 @@ CHECKS = {
             "access matrices, tile sizes and templates are concrete (enumerated families incl. the real gemmx/alu/xdma "
             "templates); at most 40 yields per path.",
             "symbolic execution of the real Python + z3 unsat queries (LIA) per path", "3/C03"),
+    "C15": (TV,
+            "Generated loops of the recognised shape (index computation with three index-dependent subviews, then 2..4 barrier-"
+            "separated stages of memref.copy / linalg.generic on tile buffers and subviews; load-compute-store chains and free "
+            "buffer assignments, one or two operations per stage; constant and symbolic upper bounds, lower bounds and steps) run "
+            "before and after pipeline-canonicalize-for, construct-pipeline, pipeline-duplicate-buffers, unroll-pipeline on a "
+            "two-core buffer machine (z3 arrays, symbolic contents, tile offsets as terms in the bounds). z3 proves per path: every "
+            "stage runs once per iteration with the same multiset of tile offsets; no tile outside the iteration range is touched; "
+            "every stage execution reads the values it read in the sequential loop; argument buffers end equal; inside every "
+            "barrier epoch no data-mover access conflicts with a compute-core access (all permitted interleavings agree).",
+            "programs sampled by VERIF_SEED; trip counts 0..6 by unrolling; tile 8, buffers 64; assignments the compiler declines "
+            "(NotImplementedError) are rejected inputs; write/write pairs on temporaries without reader are not counted as races; one "
+            "known finding (dynamic upper bound below stages-1) suppressed by signature.",
+            "bounded symbolic execution of before/after IR on z3 arrays + per-epoch region disjointness and multiset equalities discharged by z3", "3/C15"),
     "C16": (OT,
             "Same symbolic scheduler runs as C03: per yielded schedule z3 proves inner bounds <= template bounds under "
             "the path condition; inner sub-matrices vs template by exact row-space equality (z3 over rationals); the "
